@@ -331,6 +331,37 @@ func c19Run(w *kernel.Worker, j *c19Job, rep *kernel.Report) (*Fail, error) {
 			}
 		}
 	}
+	// state kept in memory may reach the file system only later: a graceful shutdown flushes it
+	var beforeStop map[string]string
+	if err := w.Call("snapshot", nil, &beforeStop); err != nil {
+		return die(err)
+	}
+	if err := w.CallT("shutdown", map[string]interface{}{"noexit": true}, nil, 60*time.Second); err != nil {
+		if d, ok := err.(*kernel.Died); ok {
+			return &Fail{FP: "C19/server-died/graceful-shutdown", What: fmt.Sprintf("names %v, graceful shutdown: %s %s\n%s", j.Names, d.Exit, d.Frame, trunc(d.Stderr, 1200))}, nil
+		}
+		return nil, err
+	}
+	var afterStop map[string]string
+	serr := w.Call("snapshot", nil, &afterStop)
+	w.Kill() // the instance is shut down: unfit for reuse
+	if serr == nil {
+		for p, v := range afterStop {
+			if strings.HasPrefix(p, "defaultDBs") {
+				continue
+			}
+			if bv, ok := beforeStop[p]; !ok {
+				fs.Add("C19/created-outside/graceful-shutdown", fmt.Sprintf("after operations with the names %v a graceful shutdown created %q outside the data and log directories", j.Names, p))
+			} else if bv != v {
+				fs.Add("C19/modified-outside/graceful-shutdown", fmt.Sprintf("after operations with the names %v a graceful shutdown modified %q outside the data and log directories", j.Names, p))
+			}
+		}
+		for p := range beforeStop {
+			if _, ok := afterStop[p]; !ok && !strings.HasPrefix(p, "defaultDBs") {
+				fs.Add("C19/deleted-outside/graceful-shutdown", fmt.Sprintf("after operations with the names %v a graceful shutdown deleted %q outside the data and log directories", j.Names, p))
+			}
+		}
+	}
 	return fs.Result(), nil
 }
 
